@@ -534,3 +534,23 @@ _reg(C12Prop(
     assumptions=["the Go runtime (nil maps, slices) is not modelled: a panic shows up as a PANIC line of the harness",
                  "IsEmpty() on a nil v2 receiver dereferences nil but is not among the observers the property lists; not called on nil",
                  "zero-value structs (&Base{}) are not constructor results and are out of scope"]))
+
+
+def _c14(tier, rng):
+    n = 30000 if tier == "quick" else 600000
+    ops3 = [o for o in S.accepted3_ops(rng, n) if not o.startswith("D3 B")]
+    ops2 = [o for o in S.accepted2_ops(rng, n) if not o.startswith("D2 B")]
+    yield ("v3 accepted temporal and environmental vectors: views through BaseMetrics()/TemporalMetrics()", ops3, False)
+    yield ("v2 accepted temporal and environmental vectors: views", ops2, False)
+    yield ("all v3 base vectors through the T and E decoders", S.base3_all(kind="D3", levels=(1, 2)), True)
+    yield ("all v2 base vectors through the T and E decoders", S.base2_all(kind="D2", levels=(1, 2)), True)
+
+
+_reg(DecodeProp(
+    "C14", ["CvssVerif.Props.C14"],
+    ["CvssVerif.Props.C14.view3", "CvssVerif.Props.C14.view3_encode", "CvssVerif.Props.C14.queries_congr3",
+     "CvssVerif.Props.C14.view2", "CvssVerif.Props.C14.queries_congr2"],
+    _c14,
+    "accepted temporal / environmental vectors of both versions: score, severity and encoding obtained through BaseMetrics() and "
+    "TemporalMetrics() against (a) the specification's value for the lower-level part and (b) a fresh lower-level decoder applied to the "
+    "view's own encoding (flag pv); all base vectors through the higher decoders"))
